@@ -452,7 +452,7 @@ SPECS["C01"] = ("""property C01: event JSON parsing is faithful to an independen
    of the grammar (whitespace, alternative escape spellings of known strings) "parse t = enc_event (denote t)"
    is not proved in Coq; it is decided per run by the differential check against python's json module (member orders, whitespace, escape
    spellings, unknown members, boundaries) and against the parser model (exact).""",
-  CODIMP + "\nFrom Pocket Require Import EscapeRoundTrip JsonRoundTrip JsonSkip EventAnyOrder Spelling.", [
+  CODIMP + "\nFrom Pocket Require Import EscapeRoundTrip JsonRoundTrip JsonSkip TagsWs EventAnyOrder Spelling.", [
   ("C01_created_at_value_partial",
    "forall l, read_u64 l = let '(ds, rest) := span_digits l in\n    match ds with [] => Err EJson | _ => if num_of ds <=? 18446744073709551615 then Ok (num_of ds, rest) else Err EJson end",
    "read_u64_spec", "digit run of any length: its value, or an error when >= 2^64"),
@@ -474,6 +474,12 @@ SPECS["C01"] = ("""property C01: event JSON parsing is faithful to an independen
   ("C01_any_spelling_of_every_string",
    "forall e tes cj w0 ms tail out, wf_event_json e -> Forall2 (Forall2 escd) (e_tags e) tes -> escd (e_content e) cj ->\n    wsb w0 -> Forall wm_ok ms -> NoDup (known (map wm_m ms)) -> (forall k, In k (known (map wm_m ms))) -> event_size e <= len out ->\n    event_from_json (event_text_s e tes cj w0 ms tail) out\n    = Ok (len (event_text_s e tes cj w0 ms tail) - len tail, enc_event e, enc_event e ++ drop (event_size e) out)",
    "event_any_spelling", "the most general parse theorem: the tag strings spelled tes and the content spelled cj in ANY spelling related to them by escd - the relation all parse lemmas rest on: json_unescape reads the spelling back as the string and the string skipper skips it, whatever follows - with the members in any order, unknown members and white space as before"),
+  ("C01_full_grammar",
+   "forall e w1 wtes cj w0 ms tail out, wf_event_json e -> wsb w1 -> Forall2 wtag_ok (e_tags e) wtes -> escd (e_content e) cj ->\n    wsb w0 -> Forall wm_ok ms -> NoDup (known (map wm_m ms)) -> (forall k, In k (known (map wm_m ms))) -> event_size e <= len out ->\n    event_from_json (event_text_T e (wtags_body w1 wtes) cj w0 ms tail) out\n    = Ok (len (event_text_T e (wtags_body w1 wtes) cj w0 ms tail) - len tail, enc_event e, enc_event e ++ drop (event_size e) out)",
+   "event_full_grammar", "THE FULL GRAMMAR of the property statement: every JSON text denoting the event - the seven members in any order, any number of unknown members with any JSON values, every escape spelling of every tag string and of the content, and white space in EVERY place the parser accepts it: before the brace, around every member and colon, AND inside the tags array (after the outer bracket, after every tag's opening and closing bracket, after every comma, after every string's closing quote; TagsWs.v) - is accepted into any buffer that is large enough, the consumed length is the offset just past the closing brace, and the bytes are the canonical encoding of the seven field values"),
+  ("C01_tags_array_with_white_space",
+   "forall ts w0 tes F tail, wsb w0 -> Forall2 wtag_ok ts tes -> tags_size ts <= len F -> fits_tags ts ->\n    read_tags_array (91 :: wtags_body w0 tes tail) F = Ok (tail, enc_tags ts ++ drop (tags_size ts) F, tags_size ts)",
+   "wread_tags_array_spec", "the counting pass, the reading pass, offsets table and size check of read_tags_array on a tags array with white space in every slot and any spelling of every string"),
   ("C01_every_accepted_spelling_is_a_spelling",
    "forall cps ps, spelling cps ps -> escd (utf8_of cps) (concat ps)",
    "spelling_escd", "spelling cps ps: each Unicode scalar value of cps written literally (when it is not a quote, backslash or control character), as a two-character escape, or as \\uXXXX with hex digits in either case (below 65536, not a surrogate), mixed freely per character - these are all the spellings the unescaper accepts. So C01_any_spelling_of_every_string covers every escape spelling of every tag string and of the content"),
@@ -514,6 +520,36 @@ Proof.
   - cbn [known]. repeat constructor; cbn; intuition discriminate.
   - intros k. destruct k; cbn; auto 8.
   - eexists _, _. split; [vm_compute; reflexivity|split; [vm_compute; reflexivity|vm_compute; reflexivity]].
+Qed.
+(* non-vacuity of the full-grammar theorem: white space in every slot of the tags array (one tag with two strings, an empty tag
+   with white space inside, a tag with an empty string), the first tag string spelled u0065 *)
+Example C01_full_grammar_example :
+  let e := mkE (repeat 1 32) (repeat 2 32) (repeat 3 64) 1 1700000000 [[[101]; [91; 34; 93]]; []; [[]]] [104; 10; 34; 92; 195; 169] in
+  let cj := [104; 92; 110; 92; 34; 92; 92; 195; 169] in
+  let wtes := [mkWt [mkWs [92; 117; 48; 48; 54; 53] [32] [10; 9]; mkWs [91; 92; 34; 93] [13; 10] []] [32; 32] [9] [32];
+               mkWt [] [] [32] [10; 32];
+               mkWt [mkWs [] [32] []] [9] [] []] in
+  let ms := [mkWm (EK KContent) [32] [] [32] []; no_ws (EK KSig); mkWm (EK KTags) [10] [32] [32; 9] [13]; no_ws (EK KId); no_ws (EK KKind); no_ws (EK KPk); no_ws (EK KCreated)] in
+  Forall2 wtag_ok (e_tags e) wtes /\\
+  event_from_json (event_text_T e (wtags_body [32; 10] wtes) cj [9] ms [9; 9]) (repeat 170 (N.to_nat (event_size e) + 3))
+  = Ok (len (event_text_T e (wtags_body [32; 10] wtes) cj [9] ms [9; 9]) - 2, enc_event e, enc_event e ++ [170; 170; 170]).
+Proof.
+  cbv zeta. cbn [e_tags]. split; [|vm_compute; reflexivity].
+  assert (WS : forall w, forallb is_ws w = true -> wsb w).
+  { intros w H. unfold wsb. apply Forall_forall. intros c Hc. rewrite forallb_forall in H. apply H. exact Hc. }
+  assert (E0 : forall s e, valid_utf8 s -> json_escape s = Ok e -> escd s e) by (intros s e V J; apply escd0_escd; split; assumption).
+  apply Forall2_cons; [|apply Forall2_cons; [|apply Forall2_cons; [|apply Forall2_nil]]].
+  - refine (conj _ (conj _ (conj _ _))); try (apply WS; reflexivity). cbn [wt_s].
+    apply Forall2_cons; [|apply Forall2_cons; [|apply Forall2_nil]].
+    + refine (conj _ (conj _ _)); try (apply WS; reflexivity). cbn [ws_e].
+      change [101] with (utf8_of [101]). change [92; 117; 48; 48; 54; 53] with (concat [[92; 117; 48; 48; 54; 53]]).
+      apply spelling_escd. apply Forall2_cons; [|apply Forall2_nil]. eapply (SpU4 101 48 48 54 53 0 0 6 5); try reflexivity. lia.
+    + refine (conj _ (conj _ _)); try (apply WS; reflexivity). cbn [ws_e].
+      apply E0; [exists [91; 34; 93]; split; [repeat constructor; unfold scalar; lia|reflexivity]|reflexivity].
+  - refine (conj _ (conj _ (conj _ _))); try (apply WS; reflexivity). cbn [wt_s]. apply Forall2_nil.
+  - refine (conj _ (conj _ (conj _ _))); try (apply WS; reflexivity). cbn [wt_s]. apply Forall2_cons; [|apply Forall2_nil].
+    refine (conj _ (conj _ _)); try (apply WS; reflexivity). cbn [ws_e].
+    apply E0; [exists []; split; [constructor|reflexivity]|reflexivity].
 Qed.
 (* non-vacuity of the any-spelling theorem: the content  h LF quote backslash e-acute  spelled  u0068 backslash-n backslash-quote
    backslash-backslash u00E9 (upper-case hex), the tag strings  e  and  [ quote ]  spelled  u0065  and  [ u0022 ] *)
@@ -741,7 +777,7 @@ SPECS["C02"] = ("""property C02: event binary <-> JSON round trip is lossless an
    enc_event e and every accessor returns the field).  Losslessness through json_escape/json_unescape
    and canonicity across texts are decided per run by the differential check (5 texts per event,
    3 buffer fills, from_parts, python json on as_json's output, byte equality).""",
-  CODIMP + "\nFrom Pocket Require Import Ctor CtorProofs Access EscapeRoundTrip JsonRoundTrip JsonSkip EventAnyOrder Spelling.", [
+  CODIMP + "\nFrom Pocket Require Import Ctor CtorProofs Access EscapeRoundTrip JsonRoundTrip JsonSkip TagsWs EventAnyOrder Spelling.", [
   ("C02_hex_roundtrip_partial", "forall bs, wf_bytes bs -> read_hex (write_hex bs) (len bs) = Ok bs", "read_write_hex", ""),
   ("C02_binary_form_is_function_of_fields_partial",
    "forall e out, wf_aevent e -> fits_event e -> event_size e <= len out ->\n    exists b, event_from_parts e out = Ok b /\\ take (event_size e) b = enc_event e /\\ drop (event_size e) b = drop (event_size e) out /\\\n              len b = len out /\\ ev_delineate b = Ok (enc_event e) /\\ event_accessors_ok e (enc_event e)",
@@ -758,6 +794,9 @@ SPECS["C02"] = ("""property C02: event binary <-> JSON round trip is lossless an
   ("C02_binary_form_independent_of_spelling",
    "forall e tes cj w0 ms tail tes' cj' w0' ms' tail' out, wf_event_json e ->\n    Forall2 (Forall2 escd) (e_tags e) tes -> escd (e_content e) cj ->\n    wsb w0 -> Forall wm_ok ms -> NoDup (known (map wm_m ms)) -> (forall k, In k (known (map wm_m ms))) ->\n    Forall2 (Forall2 escd) (e_tags e) tes' -> escd (e_content e) cj' ->\n    wsb w0' -> Forall wm_ok ms' -> NoDup (known (map wm_m ms')) -> (forall k, In k (known (map wm_m ms'))) ->\n    event_size e <= len out ->\n    exists c c', event_from_json (event_text_s e tes cj w0 ms tail) out = Ok (c, enc_event e, enc_event e ++ drop (event_size e) out) /\\\n                 event_from_json (event_text_s e tes' cj' w0' ms' tail') out = Ok (c', enc_event e, enc_event e ++ drop (event_size e) out)",
    "event_spelling_independent", "CANONICITY, general form: any two texts of one event - whatever escape spelling each tag string and the content has in either (Spelling.v), whatever the member order, unknown members and white space between the tokens of the object - parse to byte-identical binary events"),
+  ("C02_binary_form_canonical_over_the_full_grammar",
+   "forall e w1 wtes cj w0 ms tail w1' wtes' cj' w0' ms' tail' out, wf_event_json e ->\n    wsb w1 -> Forall2 wtag_ok (e_tags e) wtes -> escd (e_content e) cj ->\n    wsb w0 -> Forall wm_ok ms -> NoDup (known (map wm_m ms)) -> (forall k, In k (known (map wm_m ms))) ->\n    wsb w1' -> Forall2 wtag_ok (e_tags e) wtes' -> escd (e_content e) cj' ->\n    wsb w0' -> Forall wm_ok ms' -> NoDup (known (map wm_m ms')) -> (forall k, In k (known (map wm_m ms'))) ->\n    event_size e <= len out ->\n    exists c c', event_from_json (event_text_T e (wtags_body w1 wtes) cj w0 ms tail) out = Ok (c, enc_event e, enc_event e ++ drop (event_size e) out) /\\\n                 event_from_json (event_text_T e (wtags_body w1' wtes') cj' w0' ms' tail') out = Ok (c', enc_event e, enc_event e ++ drop (event_size e) out)",
+   "event_full_grammar_canonical", "CANONICITY over the full grammar: ANY two JSON texts of one event (member order, unknown members, escape spellings, white space everywhere incl. inside the tags array) parse to byte-identical binary events"),
   ("C02_tags_json_roundtrip",
    "forall ts tj tail F, JsonRoundTrip.valid_tags ts -> fits_tags ts -> tags_size ts <= len F ->\n    tags_as_json ts = Ok tj -> tags_from_json (tj ++ tail) F = Ok (len tj, enc_tags ts)",
    "tags_json_roundtrip", "Tags::from_json after Tags::as_json, whatever follows the text"),
